@@ -684,7 +684,7 @@ impl Property for C20 {
                         worst_len = worst_len.max((l2 - l3).abs());
                     }
                     stats.max_f("planar:edge-length-error/lmax", worst_len / lmax);
-                    if worst_len > 5e-3 * lmax {
+                    if worst_len > 1e-6 * lmax {
                         out.push(Violation::new("not-isometric", flatten, format!("an edge changes length by {:.3e} (longest edge {:.3e}) on a planar disk of {} vertices", worst_len, lmax, posed.v.len()), &[vi]));
                     } else {
                         for (fi, f) in posed.f.iter().enumerate() {
@@ -695,7 +695,7 @@ impl Property for C20 {
                                 out.push(Violation::new("triangle-folded", flatten, format!("face {} has signed area {:.3e} in the layout (3-D area {:.3e})", fi, a2, a3), &[vi]));
                                 break;
                             }
-                            if (a2 - a3).abs() > 1e-2 * a3 + 1e-5 * lmax * lmax {
+                            if (a2 - a3).abs() > 1e-5 * a3 + 1e-8 * lmax * lmax {
                                 out.push(Violation::new("not-isometric", flatten, format!("face {} has area {:.6e} in the layout but {:.6e} in 3-D", fi, a2, a3), &[vi]));
                                 break;
                             }
